@@ -9,7 +9,8 @@ EXPLANATION = ("TermFlow on alloc_try_with / try_alloc_try_with / try_alloc_with
                "diverges); (R2) exactly one ptr::read of the error slot exists in the Err arm, its value is what the Err return carries; (R3/R4) the two finger stores of the Err arm are "
                "of class SAVED (same chunk: the finger loaded before the reservation, under cur == saved footer) and EMPTY (fresh chunk: the footer address, under cur != saved "
                "footer), both gated by is_last_allocation(result) and re-establishing the chunk invariant; (R5) the slice variant releases exactly the pointer and layout it reserved "
-               "and returns the callback's error.")
+               "and returns the callback's error."
+               ' (R5 also) the release raises the finger to at least ptr + size(layout): the whole failed reservation is reusable.')
 RULE = "rule instance = (rule, entry, site); distinct by (rule, entry, site)"
 
 
